@@ -471,7 +471,7 @@ def blurring(data, ground_truth, mask=None, normalized=False,
         smoothness_factor = np.mean(data.shape) / 10
 
     if mask is not None:
-        mask = distance_transform_edt(1 - mask)
+        mask = distance_transform_edt(1 - np.asarray(mask, dtype=float))
         mask = np.exp(-mask / smoothness_factor)
 
     return mean_squared_error(data, ground_truth, mask, normalized)
